@@ -31,6 +31,10 @@ func driveKvWaitPrompt(opt *Options) error {
 	}
 	defer tw.Close()
 	if opt.Extra["only"] == "brief" {
+		// (C06) the scenarios about records that RUN OUT under parked waiters: deadlines + expiry, then microsecond lifetimes
+		if err := driveKvWaitDeadline(tw); err != nil {
+			return err
+		}
 		return driveKvWaitBrief(tw, opt.Seed)
 	}
 	idle := 2200 * time.Millisecond
